@@ -1068,4 +1068,107 @@ theorem exec_for_out (X : Ext) {n : Nat} {x : Name} {it : Expr} {ex : Option Exp
       · simp at h; simp [← h.1]
     · simp at h; simp [← h.1]
 
+/-! ### one step of a `while` loop -/
+
+theorem exec_while_err {X : Ext} {n : Nat} {c : Expr} {b : Block} {σ τ : St} {ex : Exc}
+    (hc : evalE X c σ = (.error ex, τ)) : exec X (n+1) (.whileS c b) σ = some (.exc ex, τ) := by
+  simp [exec, hc]
+
+theorem exec_while_false {X : Ext} {n : Nat} {c : Expr} {b : Block} {σ τ : St} {v : Val}
+    (hc : evalE X c σ = (.ok v, τ)) (hv : truthy v = false) : exec X (n+1) (.whileS c b) σ = some (.normal, τ) := by
+  simp [exec, hc, hv]
+
+theorem exec_while_step {X : Ext} {n : Nat} {c : Expr} {b : Block} {σ τ τ1 : St} {v : Val} {ob : Out}
+    (hc : evalE X c σ = (.ok v, τ)) (hv : truthy v = true) (hb : execB X n b τ = some (ob, τ1)) :
+    exec X (n+1) (.whileS c b) σ =
+      (match ob with
+       | .normal => exec X n (.whileS c b) τ1
+       | .cont => exec X n (.whileS c b) τ1
+       | .brk => some (.normal, τ1)
+       | o => some (o, τ1)) := by
+  simp only [exec, hc, hv, Bool.not_true, Bool.false_eq_true, if_false, hb]
+  cases ob <;> rfl
+
+theorem exec_while_none {X : Ext} {n : Nat} {c : Expr} {b : Block} {σ τ : St} {v : Val}
+    (hc : evalE X c σ = (.ok v, τ)) (hv : truthy v = true) (hb : execB X n b τ = none) :
+    exec X (n+1) (.whileS c b) σ = none := by
+  simp only [exec, hc, hv, Bool.not_true, Bool.false_eq_true, if_false, hb]
+
+/-! ### assembling a `try` -/
+
+theorem afterH_mono (X : Ext) {n m : Nat} {hs : List (Nat × Block)} {r r' : Out × St}
+    (h : afterH X n hs r = some r') (hm : n ≤ m) : afterH X m hs r = some r' := by
+  obtain ⟨o, σ⟩ := r
+  cases o with
+  | exc ex =>
+    simp only [afterH] at h ⊢
+    split at h
+    · exact execB_mono X h hm
+    · exact h
+  | _ => simpa [afterH] using h
+
+theorem finish_mono (X : Ext) {n m : Nat} {fin : Block} {r r' : Out × St}
+    (h : finish X n fin r = some r') (hm : n ≤ m) : finish X m fin r = some r' := by
+  obtain ⟨o, σ⟩ := r
+  obtain ⟨of, σf, hf, hcase⟩ := finish_some h
+  have hf' := execB_mono X hf hm
+  rcases hcase with ⟨hn, rfl⟩ | ⟨hn, rfl⟩
+  · subst hn; exact finish_of_normal hf'
+  · exact finish_of_abrupt hf' hn
+
+theorem exec_try_of (X : Ext) {m1 m2 m3 : Nat} {body : Block} {hs : List (Nat × Block)} {fin : Block}
+    {σ : St} {r1 r2 r3 : Out × St}
+    (h1 : execB X m1 body σ = some r1) (h2 : afterH X m2 hs r1 = some r2) (h3 : finish X m3 fin r2 = some r3) :
+    exec X (max m1 (max m2 m3) + 1) (.tryS body hs fin) σ = some r3 := by
+  rw [exec_try, execB_mono X h1 (Nat.le_max_left _ _)]
+  simp only [Option.bind_some]
+  rw [afterH_mono X h2 (Nat.le_trans (Nat.le_max_left _ _) (Nat.le_max_right _ _))]
+  simp only [Option.bind_some]
+  exact finish_mono X h3 (Nat.le_trans (Nat.le_max_right _ _) (Nat.le_max_right _ _))
+
+theorem exec_try_inv {X : Ext} {n : Nat} {body : Block} {hs : List (Nat × Block)} {fin : Block}
+    {σ : St} {r3 : Out × St} (h : exec X (n+1) (.tryS body hs fin) σ = some r3) :
+    ∃ r1 r2, execB X n body σ = some r1 ∧ afterH X n hs r1 = some r2 ∧ finish X n fin r2 = some r3 := by
+  rw [exec_try] at h
+  cases hb : execB X n body σ with
+  | none => simp [hb] at h
+  | some r1 =>
+    rw [hb] at h; simp only [Option.bind_some] at h
+    cases ha : afterH X n hs r1 with
+    | none => simp [ha] at h
+    | some r2 =>
+      rw [ha] at h; simp only [Option.bind_some] at h
+      exact ⟨r1, r2, rfl, ha, h⟩
+
+theorem forNext_mono (X : Ext) {n m : Nat} {x : Name} {ex : Option Expr} {b : Block} {items : List Val}
+    {σ : St} {r : Out × St} (h : forNext X n x ex b items σ = some r) (hm : n ≤ m) :
+    forNext X m x ex b items σ = some r := by
+  cases ex with
+  | none => exact execFor_mono X h hm
+  | some t =>
+    simp only [forNext] at h ⊢
+    split at h
+    · split at h
+      · rw [if_pos (by assumption)]; exact execFor_mono X h hm
+      · rw [if_neg (by assumption)]; exact h
+    · exact h
+
+/-- A `for` statement: evaluate the iterable, then behave like `forNext` on all its items. -/
+theorem exec_for_eq (X : Ext) (n : Nat) (x : Name) (it : Expr) (ex : Option Expr) (b : Block) (σ : St) :
+    exec X (n+1) (.forS x it ex b) σ =
+      (match evalE X it σ with
+       | (.ok v, σ') => (match iterItems v with
+           | .ok items => forNext X n x ex b items σ'
+           | .error e => some (.exc e, σ'))
+       | (.error e, σ') => some (.exc e, σ')) := by
+  simp only [exec, forNext]
+  rcases evalE X it σ with ⟨r, σ'⟩
+  cases r with
+  | error e => rfl
+  | ok v =>
+    simp only
+    cases iterItems v with
+    | error e => rfl
+    | ok items => cases ex <;> rfl
+
 end Malt.Sem
